@@ -97,3 +97,24 @@ def seed_slice(items, seed, tier, mod=8):
     if tier == "thorough":
         return list(items)
     return [x for i, x in enumerate(items) if i % mod == seed % mod]
+
+
+def twin_sequence():
+    """Inputs that collide under incomplete cache keys, to be processed one after the other in ONE process:
+    exponent tables with the same flattened bytes but a different (terms x indeterminates) layout, the same table
+    under different names, the same table and names with different coefficients.  (A result computed from state
+    left behind by an earlier call shows up as a disagreement with the model on a later one.)"""
+    tables = [
+        (("q0", "q1"), [(1, 2)]), (("q0",), [(1,), (2,)]), (("q1", "q2"), [(1, 2)]), (("q0", "q1"), [(1, 2)]),
+        (("q0", "q1", "q2"), [(0, 0, 0), (1, 1, 0)]), (("q0", "q1"), [(0, 0), (0, 1), (1, 0)]), (("q2", "q10"), [(0, 0), (0, 1), (1, 0)]),
+        (("q0", "q1", "q2"), [(0, 0, 0), (1, 1, 0)]), (("q0", "q1"), [(0, 1), (2, 3)]), (("q0",), [(0,), (1,), (2,), (3,)]),
+        (("q0", "q1", "q2", "q10"), [(0, 1, 2, 3)]), (("q0", "q1"), [(0, 1), (2, 3)]), (("q1", "q0"), [(0, 1), (2, 3)]),
+        (("q0", "q1"), [(0, 0), (1, 0), (0, 1), (1, 1)]), (("q0", "q1", "q2", "q10"), [(0, 0, 1, 0), (0, 1, 1, 1)]),
+    ]
+    out = []
+    for k, (names, rows) in enumerate(tables):
+        for variant in range(2):
+            coefs = [((-1) ** (i + variant)) * (i + 1 + 2 * variant) for i in range(len(rows))]
+            out.append(spec(names, (), list(zip(rows, coefs))))
+        out.append(spec(names, (2,), [(r, [i + 1, -(i + 2) if i % 2 else 0]) for i, r in enumerate(rows)]))
+    return out + out[::-1]
